@@ -345,6 +345,8 @@ def build_bases(repo):
     deb("flags-short", "[OP_0 OP_0 OP_1 OP_CHECKMULTISIG]", [O("-f", "-MINIMALIF,-NULLFAIL", "flags")], [], "flags")
     deb("sign-tx", SIGN_SCRIPT, [O("--tx=", SIGN_AMT + ":" + SIGN_TX, "txamt")], ["0x", SIGN_S2, SIGN_S3], "tx+script+stack",
         stackvt="hex")
+    deb("sign-tx-laxflags", SIGN_SCRIPT, [O("--tx=", SIGN_AMT + ":" + SIGN_TX, "txamt"), O("-f", "-STRICTENC,-DERSIG,-LOW_S,-NULLFAIL,-NULLDUMMY", "flags")],
+        ["0x", SIGN_S2, SIGN_S3], "tx+script+stack", stackvt="hex")     # undefined hash types reach the signature check only without STRICTENC
     deb("sign-tx-legacyarg", SIGN_SCRIPT, [O("tx=", SIGN_AMT + ":" + SIGN_TX, "txamt")], ["0x", SIGN_S2, SIGN_S3],
         "tx+script+stack", stackvt="hex")
     for p in DOC_PAIRS:
@@ -651,6 +653,12 @@ def slot_deviations(base, i, tier):
                 if p < len(val):
                     for ch in ("g", " ", ":"):
                         rep("non-hex-char", "%r at field %s" % (ch, f[0]), val[:p] + ch + val[p + 1:])
+    # a DER signature with its hash-type byte: other hash types (the byte selects digest variants and is echoed by debug code)
+    hv = val[2:] if val.startswith("0x") else val
+    if vt in ("hex", "num", "tok") and len(hv) >= 18 and hv[:2] == "30" and _looks_hex(val) and int(hv[2:4], 16) == len(hv) // 2 - 3:
+        for ht in ("00", "04", "40", "1f", "80", "ff", "02", "83"):
+            if hv[-2:] != ht:
+                rep("sig-hashtype", "hash type byte " + ht, val[:-2] + ht)
     if vt in ("script", "tok", "num", "hex", "fn"):
         for d in range(1, 9):
             rep("unbalanced-bracket", "depth %d missing close" % d, "[" * d + val + "]" * (d - 1))
